@@ -67,12 +67,21 @@ func resTree(p tds.Package, err error, returned bool) sx.T {
 	return sx.L{sx.I(0), sx.I(-1)}
 }
 
+// errTree: the result of a call that returns only an error: (0) nil, else as resTree
+func errTree(err error, returned bool) sx.T {
+	if returned && err == nil {
+		return sx.L{sx.I(0)}
+	}
+	return resTree(nil, err, returned)
+}
+
 // c13env: a connection whose peer acknowledges channel setups and answers logouts as configured
 type c13env struct {
 	*cenv
 	peerLogout int // 0 answer at once, 1 answer after 300 ms, 2 never
 	mu         sync.Mutex
 	logouts    int
+	fed, base  int // packages fed with feedDone / transport bytes read before the first of them
 }
 
 func newC13(cap int, peerLogout int) *c13env {
@@ -89,8 +98,9 @@ func newC13(cap int, peerLogout int) *c13env {
 		if h.channel == 0 && len(w) == 10 && w[8] == byte(tds.TDS_LOGOUT) {
 			e.mu.Lock()
 			e.logouts++
+			mode := e.peerLogout
 			e.mu.Unlock()
-			switch e.peerLogout {
+			switch mode {
 			case 0:
 				e.pc.Feed(donePkt(0, 0, true))
 			case 1:
@@ -102,6 +112,12 @@ func newC13(cap int, peerLogout int) *c13env {
 		}
 	}
 	return e
+}
+
+func (e *c13env) setPeer(mode int) {
+	e.mu.Lock()
+	e.peerLogout = mode
+	e.mu.Unlock()
 }
 
 // channel of the wanted kind: 0 = channel 0, 1 = a logical channel (channel 0 is created first)
@@ -120,21 +136,50 @@ func (e *c13env) channel(kind int) *tds.Channel {
 	return ch1
 }
 
-// settle waits until the reader has either processed everything that was fed or is parked on the full queue of ch
-func (e *c13env) settle(ch *tds.Channel, cap int) {
-	deadline := time.Now().Add(2 * time.Second)
-	for time.Now().Before(deadline) {
-		if e.pc.WaitIdle(2 * time.Millisecond) {
-			return
-		}
-		if n, _ := ch.VerifQueueLens(); n >= cap && e.pc.WaitDrained(time.Millisecond) {
-			// full queue and nothing left on the wire: the reader holds at most one more package; give it a moment to park
-			time.Sleep(3 * time.Millisecond)
-			if n2, _ := ch.VerifQueueLens(); n2 >= cap {
-				return
-			}
+// feedDone hands package number k (a DONE in a packet of its own) to the channel under observation
+func (e *c13env) feedDone(ch *tds.Channel, k int, final bool) {
+	if e.fed == 0 {
+		e.base = e.pc.BytesRead()
+	}
+	e.fed++
+	e.pc.Feed(donePkt(ch.VerifChannelId(), k, final))
+}
+
+const donePktLen = 17
+
+// settle waits for the stable state the fed packets lead to: either the reader has processed all of them (it asks
+// for more), or - more undelivered packages than the queue holds - it has read the packet whose package does not fit
+// any more and is parked in the send on the full queue, holding the channel's read lock.  `taken` packages were
+// taken out of the queue so far.  Returns true in the parked case.
+func (e *c13env) settle(ch *tds.Channel, cap, taken int) bool {
+	readerGone := func() bool {
+		select {
+		case <-e.readerDone:
+			return true
+		default:
+			return false
 		}
 	}
+	deadline := time.Now().Add(hangBound)
+	if e.fed-taken <= cap {
+		for time.Now().Before(deadline) && !readerGone() && !e.pc.WaitIdle(2*time.Millisecond) {
+		}
+		return false
+	}
+	want := e.base + donePktLen*(taken+cap+1)
+	for time.Now().Before(deadline) && !readerGone() {
+		n, _ := ch.VerifQueueLens()
+		if n >= cap && e.pc.BytesRead() >= want {
+			break
+		}
+		time.Sleep(200 * time.Microsecond)
+	}
+	if readerGone() {
+		return false
+	}
+	// between reading the packet and parking in the send lie a map lookup and the read lock: a moment is enough
+	time.Sleep(15 * time.Millisecond)
+	return true
 }
 
 type canceller struct {
@@ -162,20 +207,20 @@ func runRecvCancelled(out caser, kind, cap, mode, nfed, ncalls int) {
 	e := newC13(cap, 0)
 	defer e.shutdown()
 	ch := e.channel(kind)
-	in := sx.L{sx.I(int64(cap)), sx.I(int64(mode)), sx.I(int64(nfed)), sx.I(int64(ncalls))}
+	in := sx.L{sx.I(int64(kind)), sx.I(int64(cap)), sx.I(int64(mode)), sx.I(int64(nfed)), sx.I(int64(ncalls))}
 	tag := fmt.Sprintf("recv-cancelled;kind=%d;cap=%d;mode=%d;fed=%d", kind, cap, mode, nfed)
 	if ch == nil {
 		out.Case(1, in, sx.L{sx.I(-8)}, tag+";newchannel-failed")
 		return
 	}
-	id := ch.VerifChannelId()
 	for k := 0; k < nfed; k++ {
-		e.pc.Feed(donePkt(id, k, false))
+		e.feedDone(ch, k, false)
 	}
-	e.settle(ch, cap)
+	e.settle(ch, cap, 0)
 	c := e.ctxFor(mode)
 	c.cancel()
 	res := sx.L{}
+	taken := 0
 	for k := 0; k < ncalls; k++ {
 		var p tds.Package
 		var err error
@@ -184,7 +229,10 @@ func runRecvCancelled(out caser, kind, cap, mode, nfed, ncalls int) {
 		if !ret {
 			break
 		}
-		e.settle(ch, cap)
+		if err == nil {
+			taken++
+		}
+		e.settle(ch, cap, taken)
 	}
 	out.Case(1, in, res, tag)
 }
@@ -252,7 +300,7 @@ func runRecvDuring(out caser, kind, cap, mode int, wait bool, narrive int, order
 	if wait {
 		w = 1
 	}
-	out.Case(2, sx.L{sx.I(int64(cap)), sx.I(int64(mode)), sx.I(int64(w)), sx.I(int64(narrive)), res}, sx.L{sx.I(1)}, tag)
+	out.Case(2, sx.L{sx.I(int64(kind)), sx.I(int64(cap)), sx.I(int64(mode)), sx.I(int64(w)), sx.I(int64(narrive)), res}, sx.L{sx.I(1)}, tag)
 }
 
 // ---------------------------------------------------------------- fn 3
@@ -265,17 +313,16 @@ func runUntilCancelled(out caser, kind, cap, mode, nfed int, final bool, cbkind 
 	if final {
 		f = 1
 	}
-	in := sx.L{sx.I(int64(cap)), sx.I(int64(mode)), sx.I(int64(nfed)), sx.I(int64(f)), sx.I(int64(cbkind))}
+	in := sx.L{sx.I(int64(kind)), sx.I(int64(cap)), sx.I(int64(mode)), sx.I(int64(nfed)), sx.I(int64(f)), sx.I(int64(cbkind))}
 	tag := fmt.Sprintf("until-cancelled;kind=%d;mode=%d;fed=%d;final=%d;cb=%d", kind, mode, nfed, f, cbkind)
 	if ch == nil {
 		out.Case(3, in, sx.L{sx.I(-8)}, tag+";newchannel-failed")
 		return
 	}
-	id := ch.VerifChannelId()
 	for k := 0; k < nfed; k++ {
-		e.pc.Feed(donePkt(id, k, final && k == nfed-1))
+		e.feedDone(ch, k, final && k == nfed-1)
 	}
-	e.settle(ch, cap)
+	e.settle(ch, cap, 0)
 	c := e.ctxFor(mode)
 	c.cancel()
 	seen := sx.L{}
@@ -308,7 +355,7 @@ func runSendCancelled(out caser, kind, ps, mode, api, npackets, holdAt int) {
 	e := newC13(8, 0)
 	defer e.shutdown()
 	ch := e.channel(kind)
-	in := sx.L{sx.I(int64(ps)), sx.I(int64(mode)), sx.I(int64(api)), sx.I(int64(npackets)), sx.I(int64(holdAt))}
+	in := sx.L{sx.I(int64(kind)), sx.I(int64(ps)), sx.I(int64(mode)), sx.I(int64(api)), sx.I(int64(npackets)), sx.I(int64(holdAt))}
 	tag := fmt.Sprintf("send-cancelled;kind=%d;mode=%d;api=%d;packets=%d;hold=%d", kind, mode, api, npackets, holdAt)
 	if ch == nil {
 		out.Case(4, in, sx.L{sx.I(-8)}, tag+";newchannel-failed")
@@ -327,7 +374,7 @@ func runSendCancelled(out caser, kind, ps, mode, api, npackets, holdAt int) {
 	call := func(f func() error) bool {
 		var err error
 		ret, _ := within(hangBound, func() { err = f() })
-		results = append(results, resTree(nil, err, ret))
+		results = append(results, errTree(err, ret))
 		return ret
 	}
 	if holdAt < 0 {
@@ -369,9 +416,9 @@ func runSendCancelled(out caser, kind, ps, mode, api, npackets, holdAt int) {
 	e.pc.Release()
 	select {
 	case err := <-done:
-		results = append(results, resTree(nil, err, true))
+		results = append(results, errTree(err, true))
 	case <-time.After(hangBound):
-		results = append(results, resTree(nil, nil, false))
+		results = append(results, errTree(nil, false))
 	}
 	// writes after the cancellation: everything beyond the write that was in progress
 	out.Case(4, in, sx.L{results, sx.I(int64(e.pc.NWrites() - base - (holdAt + 1)))}, tag)
@@ -394,9 +441,13 @@ func runAfterClose(out caser, kind, cap, nqueued, nlate int, viaConn bool) {
 	}
 	id := ch.VerifChannelId()
 	for k := 0; k < nqueued; k++ {
-		e.pc.Feed(donePkt(id, k, false))
+		e.feedDone(ch, k, false)
 	}
-	e.settle(ch, cap)
+	e.settle(ch, cap, 0)
+	if nqueued > 0 && kind == 0 {
+		// the logout reads the queued package as its answer; a reply of the peer would race with the unregistration
+		e.setPeer(2)
+	}
 	var cerr error
 	var ret bool
 	if viaConn {
@@ -433,6 +484,7 @@ func runAfterClose(out caser, kind, cap, nqueued, nlate int, viaConn bool) {
 		return ch.NextPackageUntil(ctx, false, func(tds.Package) (bool, error) { return true, nil })
 	})
 	call(func() (tds.Package, error) { return nil, ch.QueuePackage(ctx, pkg) })
+	_ = errTree
 	call(func() (tds.Package, error) { return nil, ch.SendRemainingPackets(ctx) })
 	call(func() (tds.Package, error) { return nil, ch.SendPackage(ctx, pkg) })
 	call(func() (tds.Package, error) { return nil, ch.Close() })
@@ -485,14 +537,17 @@ func runCloseFill(out caser, kind, cap, nfed, nconsumed, peer int, bound time.Du
 		out.Case(6, in, sx.L{sx.I(-8)}, tag+";newchannel-failed")
 		return
 	}
-	id := ch.VerifChannelId()
 	for k := 0; k < nfed; k++ {
-		e.pc.Feed(donePkt(id, k, false))
+		e.feedDone(ch, k, false)
 	}
-	e.settle(ch, cap)
+	e.settle(ch, cap, 0)
 	for k := 0; k < nconsumed; k++ {
 		within(hangBound, func() { ch.NextPackage(context.Background(), true) })
-		e.settle(ch, cap)
+		e.settle(ch, cap, k+1)
+	}
+	if undelivered > 0 && kind == 0 {
+		// the logout reads a queued package as its answer; a reply of the peer would race with the unregistration
+		e.setPeer(2)
 	}
 	var cerr error
 	ret, pan := within(bound, func() { cerr = ch.Close() })
@@ -513,41 +568,78 @@ func runCloseFill(out caser, kind, cap, nfed, nconsumed, peer int, bound time.Du
 	if ret {
 		b = 1
 	}
+	if kind == 0 && undelivered > limit {
+		// channel 0: the logout takes one package out of the full queue and wakes the parked reader; whether Close then
+		// finds it parked again (and blocks for good) depends on who is faster: the outcome is part of the history
+		out.Case(8, append(in, sx.I(b)), sx.L{sx.I(1)}, tag+";race")
+		return
+	}
 	out.Case(6, in, sx.L{sx.I(b), sx.I(code), sx.I(after)}, tag)
 }
 
 // ---------------------------------------------------------------- fn 7
-// transport: 0 healthy (a Read blocks until Close, then fails) | 1 fails from the start and keeps failing, nobody
-// reads the connection's error queue | 2 fails `nfail` times (fewer than the error queue holds), then healthy
-func runConnClose(out caser, nchan, cap int, nqueued []int, peer, transport, nfail int) {
+// transport: 0 healthy (a Read blocks until Close, then fails)
+//            1 fails from the start and keeps failing, nobody reads the connection's error queue
+//            2 fails exactly nfail times, then healthy
+// zeroClosed: channel 0 is closed (logout) before anything else happens, so that closing the remaining channels does
+// not read the connection's error queue.
+func runConnClose(out caser, nchan, cap int, nqueued []int, peer, transport, nfail int, zeroClosed bool) {
 	base := stableGoroutines()
 	e := newC13(cap, peer)
 	var chans []*tds.Channel
+	zc := int64(0)
+	if zeroClosed {
+		zc = 1
+	}
+	var ql sx.L
+	for _, n := range nqueued {
+		ql = append(ql, sx.I(int64(n)))
+	}
+	if ql == nil {
+		ql = sx.L{}
+	}
+	in := sx.L{sx.I(int64(nchan)), sx.I(int64(cap)), ql, sx.I(int64(peer)), sx.I(int64(transport)), sx.I(int64(nfail)), sx.I(zc)}
+	class := "conn-close"
+	if transport == 1 || (transport == 2 && nfail >= 10) {
+		class = "reader-parked-errch"
+	}
+	tag := fmt.Sprintf("%s;channels=%d;peer=%d;transport=%d;nfail=%d;zeroclosed=%d", class, nchan, peer, transport, nfail, zc)
 	for i := 0; i < nchan; i++ {
 		ch, err, ok := e.newChannel()
 		if !ok || err != nil {
-			out.Case(7, sx.L{}, sx.L{sx.I(-8)}, "conn-close;newchannel-failed")
+			out.Case(7, in, sx.L{sx.I(-8)}, tag+";newchannel-failed")
 			e.shutdown()
 			return
 		}
 		chans = append(chans, ch)
 	}
+	if zeroClosed && nchan > 0 {
+		within(hangBound, func() { chans[0].Close() })
+	}
 	for i, ch := range chans {
+		if zeroClosed && i == 0 {
+			continue
+		}
 		for k := 0; k < nqueued[i]; k++ {
 			e.pc.Feed(donePkt(ch.VerifChannelId(), k, false))
 		}
+		if nqueued[i] > 0 && i == 0 {
+			e.setPeer(2) // the logout reads the queued package as its answer
+		}
 	}
-	if nchan > 0 {
-		e.pc.WaitIdle(hangBound)
-	}
-	class := "conn-close"
+	e.pc.WaitIdle(hangBound)
 	switch transport {
 	case 1:
-		class = "reader-parked-errch"
-		e.pc.SetFailing(errors.New("connection reset by peer"))
-		// the reader reports the failure again and again until the connection's error queue is full
+		e.pc.SetFailing(errors.New("connection reset by peer"), -1)
+	case 2:
+		if nfail > 0 {
+			e.pc.SetFailing(errors.New("temporary failure"), nfail)
+		}
+	}
+	if transport != 0 {
+		// the reader reports every failure; wait until the error queue stops growing (full, or the failures are over)
 		last, stable := -1, 0
-		for i := 0; i < 2000 && stable < 25; i++ {
+		for i := 0; i < 4000 && stable < 25; i++ {
 			n := e.conn.VerifErrChLen()
 			if n == last && n > 0 {
 				stable++
@@ -557,35 +649,8 @@ func runConnClose(out caser, nchan, cap int, nqueued []int, peer, transport, nfa
 			last = n
 			time.Sleep(time.Millisecond)
 		}
-	case 2:
-		e.pc.mu.Lock()
-		left := nfail
-		e.pc.mu.Unlock()
-		for ; left > 0; left-- {
-			before := e.conn.VerifErrChLen()
-			e.pc.SetFailing(errors.New("temporary failure"))
-			for i := 0; i < 2000 && e.conn.VerifErrChLen() == before; i++ {
-				time.Sleep(200 * time.Microsecond)
-			}
-			e.pc.SetFailing(nil)
-			time.Sleep(time.Millisecond)
-		}
 	}
-	var ql sx.L
-	for _, n := range nqueued {
-		ql = append(ql, sx.I(int64(n)))
-	}
-	if ql == nil {
-		ql = sx.L{}
-	}
-	in := sx.L{sx.I(int64(nchan)), sx.I(int64(cap)), ql, sx.I(int64(peer)), sx.I(int64(transport)), sx.I(int64(nfail))}
-	tag := fmt.Sprintf("%s;channels=%d;peer=%d;transport=%d;nfail=%d", class, nchan, peer, transport, nfail)
-	fmt.Println("DBG before close errch", e.conn.VerifErrChLen(), e.readerPan)
 	ret, _ := within(hangBound, func() { e.conn.Close() })
-	fmt.Println("DBG after close errch", e.conn.VerifErrChLen(), e.readerPan)
-	if transport == 1 {
-		e.pc.SetFailing(errors.New("connection reset by peer")) // keeps failing also after Close
-	}
 	closed := sx.L{}
 	if ret {
 		for _, ch := range chans {
@@ -604,7 +669,7 @@ func runConnClose(out caser, nchan, cap int, nqueued []int, peer, transport, nfa
 	}
 	readerEnded := int64(0)
 	bound := hangBound
-	if transport == 1 {
+	if class == "reader-parked-errch" {
 		bound = knownBound
 	}
 	select {
@@ -687,6 +752,10 @@ func stableGoroutines() int {
 func mainC13(rng *sx.Rng, out caser, thorough bool) {
 	const cap = 4
 	kinds := []int{0, 1}
+	t0 := time.Now()
+	lap := func(what string) {
+		fmt.Printf("c13: %s done after %.1fs\n", what, time.Since(t0).Seconds())
+	}
 	// fn 7 first: the goroutine count is only meaningful while nothing else runs and nothing has leaked yet
 	for _, peer := range []int{0, 1} {
 		for _, nchan := range []int{0, 1, 2, 5} {
@@ -694,13 +763,18 @@ func mainC13(rng *sx.Rng, out caser, thorough bool) {
 			for i := range nq {
 				nq[i] = []int{0, 1, cap, 2}[(i+nchan)%4]
 			}
-			runConnClose(out, nchan, cap, nq, peer, 0, 0)
+			if peer == 1 && nchan > 0 {
+				nq[0] = 0
+			}
+			runConnClose(out, nchan, cap, nq, peer, 0, 0, false)
 		}
 	}
+	runConnClose(out, 3, cap, []int{0, 2, cap}, 0, 0, 0, true)
 	for _, nfail := range []int{1, 3, 9} {
-		runConnClose(out, 1, cap, []int{0}, 0, 2, nfail)
-		runConnClose(out, 0, cap, nil, 0, 2, nfail)
+		runConnClose(out, 0, cap, nil, 0, 2, nfail, false)
+		runConnClose(out, 2, cap, []int{0, 1}, 0, 2, nfail-1, true)
 	}
+	lap("conn-close")
 	// fn 1: cancelled before the call, every fill level 0..cap+3
 	for _, kind := range kinds {
 		for mode := 0; mode < 4; mode++ {
@@ -709,6 +783,7 @@ func mainC13(rng *sx.Rng, out caser, thorough bool) {
 			}
 		}
 	}
+	lap("recv-cancelled")
 	// fn 3
 	for _, kind := range kinds {
 		for mode := 0; mode < 3; mode++ {
@@ -722,6 +797,7 @@ func mainC13(rng *sx.Rng, out caser, thorough bool) {
 			}
 		}
 	}
+	lap("until-cancelled")
 	// fn 4
 	for _, kind := range kinds {
 		for mode := 0; mode < 4; mode++ {
@@ -735,6 +811,7 @@ func mainC13(rng *sx.Rng, out caser, thorough bool) {
 			}
 		}
 	}
+	lap("send-cancelled")
 	// fn 5
 	for _, kind := range kinds {
 		for _, nq := range []int{0, 1, cap} {
@@ -744,6 +821,7 @@ func mainC13(rng *sx.Rng, out caser, thorough bool) {
 			runAfterClose(out, kind, cap, nq, 0, true)
 		}
 	}
+	lap("after-close")
 	// fn 2: racing cancellation and arrivals
 	reps := 2
 	if thorough {
@@ -763,6 +841,7 @@ func mainC13(rng *sx.Rng, out caser, thorough bool) {
 		}
 	}
 	parallel(out, 8, fs)
+	lap("recv-cancel-during")
 	// fn 6: response abandoned after j packages, then Close; the cases in which more packages are undelivered than
 	// the queue holds block for good (known finding) and are observed in parallel
 	fs = nil
@@ -773,8 +852,8 @@ func mainC13(rng *sx.Rng, out caser, thorough bool) {
 					continue
 				}
 				for _, peer := range []int{0, 1} {
-					if kind == 1 && peer == 1 {
-						continue
+					if peer == 1 && (kind == 1 || nfed > ncons) {
+						continue // the logout answer only matters for channel 0 with an empty queue
 					}
 					kind, nfed, ncons, peer := kind, nfed, ncons, peer
 					bound := hangBound
@@ -791,7 +870,9 @@ func mainC13(rng *sx.Rng, out caser, thorough bool) {
 		}
 	}
 	parallel(out, 64, fs)
+	lap("close-fill")
 	// fn 7 with a transport that keeps failing: the reader parks on the full error queue (known finding)
-	runConnClose(out, 1, cap, []int{0}, 0, 1, 0)
-	runConnClose(out, 0, cap, nil, 0, 1, 0)
+	runConnClose(out, 0, cap, nil, 0, 1, 0, false)
+	runConnClose(out, 2, cap, []int{0, 1}, 0, 1, 0, true)
+	runConnClose(out, 0, cap, nil, 0, 2, 10, false)
 }
